@@ -37,7 +37,7 @@ ALL_POS = ("rhs", "if", "case", "index", "cmp")
 
 L1 = {   # per tier: sampled ASTs (depth 2 / depth 3), shape pairs per sampled two-variable AST, full depth-2 space
     "quick":    {"s2": 700, "s3": 300, "kshapes": 3, "d2": False, "kd2": 0},
-    "thorough": {"s2": 0, "s3": 6000, "kshapes": 4, "d2": True, "kd2": 4},
+    "thorough": {"s2": 3000, "s3": 3000, "kshapes": 3, "d2": True, "kd2": 2},
 }
 
 
@@ -469,7 +469,7 @@ def judge_traces(traces, scratch, workers=8, timeout=1700):
                    "hyp_chains": sum(1 for t in slim if t["pini"])}
 
 
-L2 = {"quick": {"fragments": 150, "cycles": 28}, "thorough": {"fragments": 3000, "cycles": 40}}
+L2 = {"quick": {"fragments": 150, "cycles": 28}, "thorough": {"fragments": 1500, "cycles": 36}}
 
 
 def _module_text(v):
@@ -552,7 +552,7 @@ def layer2(report, tier, seed, scratch, coll, log=print):
 
 
 L3 = {"quick": {"memories": 60, "mem_cycles": 48, "corpus": fam.QUICK_CORPUS, "cycles": 64, "seeds": 1, "both_modes": ("csr_bus.CSRBank", "EventManager")},
-      "thorough": {"memories": 800, "mem_cycles": 64, "corpus": None, "cycles": 256, "seeds": 2, "both_modes": None}}
+      "thorough": {"memories": 500, "mem_cycles": 64, "corpus": None, "cycles": 256, "seeds": 2, "both_modes": None}}
 
 
 def layer3(report, tier, seed, scratch, coll, log=print):
